@@ -27,6 +27,7 @@ import (
 type verifC16Op struct {
 	Op     string `json:"op"` // insert | flush | tick | advance | overlap
 	N      int    `json:"n"`
+	Dup    int    `json:"dup"` // insert: the last dup rows repeat, byte for byte, the first rows of this op
 	First  int    `json:"first"`
 	Second int    `json:"second"`
 	After  int    `json:"after"`
@@ -38,7 +39,8 @@ type verifC16Case struct {
 }
 
 type verifC16Add struct {
-	ID   int   `json:"id"`
+	ID   int   `json:"id"`  // the Insert call
+	Key  int   `json:"key"` // the row it inserts: (key, 'r'); a repeated key is a byte-identical row
 	Call int64 `json:"call"`
 	Ret  int64 `json:"ret"`
 }
@@ -144,15 +146,23 @@ func TestVerifDriverC16(t *testing.T) {
 			calls []verifC16Call
 			ticks []verifC16Tick
 		)
+		dup := 0
 		insert := func(n int) {
+			mu.Lock()
+			base := next + 1
+			mu.Unlock()
 			for i := 0; i < n; i++ {
 				mu.Lock()
 				next++
 				id := next
+				key := id
+				if i >= n-dup {
+					key = base + (i - (n - dup))
+				}
 				k := len(adds)
-				adds = append(adds, verifC16Add{ID: id, Call: p.Next()})
+				adds = append(adds, verifC16Add{ID: id, Key: key, Call: p.Next()})
 				mu.Unlock()
-				if err := bi.Insert(id, "r"); err != nil {
+				if err := bi.Insert(key, "r"); err != nil {
 					p.SetHung("insert: " + err.Error())
 				}
 				mu.Lock()
@@ -167,9 +177,11 @@ func TestVerifDriverC16(t *testing.T) {
 			what := fmt.Sprintf("op#%d %s", i, op.Op)
 			switch op.Op {
 			case "insert":
+				dup = op.Dup
 				if p.Bounded(what, func() { insert(op.N) }) {
 					p.Settle(what)
 				}
+				dup = 0
 			case "flush":
 				k := len(calls)
 				calls = append(calls, verifC16Call{Kind: "flush", Call: p.Next()})
